@@ -188,6 +188,15 @@ impl Check for MaxTimestampWins {
     type Case = StaleCase;
     const NAME: &'static str = "max_timestamp_wins";
 
+    fn normalise(mut case: StaleCase) -> StaleCase {
+        for m in &mut case.msgs {
+            m.t = 1 + m.t % 9;
+            m.v = 1 + m.v % 1999;
+        }
+        case
+    }
+
+
     fn strategy(tier: Tier) -> BoxedStrategy<StaleCase> {
         let (max_m, max_d) = match tier {
             Tier::Quick => (14usize, 40usize),
